@@ -31,5 +31,7 @@ INVARIANT C08_BranchSilent
 INVARIANT C08_MsgAct
 INVARIANT C08_ParentFirst
 PROPERTY C05_RejectedIsNoop
+INVARIANT C04_Outcome
+INVARIANT C04_Order
 INVARIANT DBG_FewInstances
 CHECK_DEADLOCK FALSE
